@@ -60,7 +60,7 @@ def main():
         r = sh([PY, demo], env=env, cwd=tmp)
         out["demo_patched_rc"] = r.returncode
         out["demo_patched_tail"] = (r.stdout + r.stderr)[-300:]
-        env2 = dict(os.environ, VERIF_REPO=tree)
+        env2 = dict(os.environ, VERIF_REPO=tree, VERIF_EVIDENCE_DIR=tmp)
         env2.setdefault("VERIF_SEED", "1")
         r = sh([os.path.join(HERE, "check"), prop, tier], env=env2)
         out["check_rc"] = r.returncode
